@@ -6,6 +6,8 @@
 // nothing (bitwise for unit filters, within the rounding bound of the reference for slip/mean), the defining functional
 // (normal component, weighted mean) vanishes up to rounding, filter objects are not modified by their application.
 #include "c06_common.hpp"
+#include <memory>
+#include <type_traits>
 
 using namespace c06;
 
@@ -40,7 +42,7 @@ namespace
     Index sz = sv.size(); put(&sz, sizeof sz); put(&ue, sizeof ue);
     if(ue > 0)
     {
-      put(sv.indices(), ue * sizeof(Index));
+      put(sv.indices(), ue * sizeof(typename SV::IndexType));
       put(sv.template elements<Perspective::pod>(), sv.template used_elements<Perspective::pod>() * sizeof(typename SV::DataType));
     }
     return s;
@@ -81,54 +83,146 @@ namespace
   }
 
   // ------------------------------------------------------------------------------------------------ A: UnitFilter, vectors
-  enum { ORD_ASC = 0, ORD_DESC = 1, ORD_ARRAY = 2, ORD_DUP = 3, ORD_DEFAULT = 4, NUM_ORD = 5 };
-  const char* ord_name[NUM_ORD] = {"add ascending", "add descending", "array ctor", "add twice (last value counts)", "default-constructed filter"};
+  enum { ORD_ASC = 0, ORD_DESC = 1, ORD_ARRAY = 2, ORD_DUP = 3, ORD_DEFAULT = 4, ORD_SCRAMBLED = 5, ORD_INCR = 6, NUM_ORD = 7 };
+  const char* ord_name[NUM_ORD] = {"add ascending", "add descending", "array ctor", "add twice (last value counts)", "default-constructed filter",
+    "add scrambled (odd indices descending, then even ascending)", "add half, apply once to a scratch vector, add the rest"};
 
-  template<typename DT>
-  UnitFilter<DT, Index> make_unit(int n, unsigned S, int order, RUnit& ref, int fno = 0)
+  // how the filter object under test came into being (pattern "derived objects")
+  enum { FD_NONE = 0, FD_CLONE_DEEP, FD_CLONE_SHALLOW, FD_MOVE_ASSIGN, FD_CLONE_INTO, FD_CONVERT, NUM_FD };
+  const char* fd_name[NUM_FD] = {"as built", "clone(Deep)", "clone(Shallow)", "move-assigned over a used filter", "clone(other) into a used filter", "convert() from the other data type"};
+
+  /// the order in which the entries of a set are added
+  inline std::vector<Index> add_order(const std::vector<Index>& asc, int order)
   {
+    std::vector<Index> o;
+    if(order == ORD_DESC) o.assign(asc.rbegin(), asc.rend());
+    else if(order == ORD_SCRAMBLED)
+    {
+      for(auto it = asc.rbegin(); it != asc.rend(); ++it) if(*it % 2) o.push_back(*it);
+      for(Index i : asc) if(!(i % 2)) o.push_back(i);
+    }
+    else o = asc;
+    return o;
+  }
+
+  template<typename DT, typename IT = Index>
+  UnitFilter<DT, IT> make_unit(int n, unsigned S, int order, RUnit& ref, int fno = 0)
+  {
+    typedef UnitFilter<DT, IT> UF;
     ref.m.clear();
-    for(int i = 0; i < n; ++i) if((S >> i) & 1u) ref.m[Index(i)] = pval(Index(i), fno);
-    if(order == ORD_DEFAULT) return UnitFilter<DT, Index>();
+    std::vector<Index> asc;
+    for(int i = 0; i < n; ++i) if((S >> i) & 1u) { ref.m[Index(i)] = LD(pval_dt<DT>(Index(i), fno)); asc.push_back(Index(i)); }
+    if(order == ORD_DEFAULT) return UF();
     if(order == ORD_ARRAY)
     {
-      DenseVector<DT, Index> vals{Index(ref.m.size())};
-      DenseVector<Index, Index> idx{Index(ref.m.size())};
+      DenseVector<DT, IT> vals{Index(ref.m.size())};
+      DenseVector<IT, IT> idx{Index(ref.m.size())};
       size_t k = 0;
-      for(auto& e : ref.m) { vals.elements()[k] = DT(e.second); idx.elements()[k] = e.first; ++k; }
-      return UnitFilter<DT, Index>(Index(n), vals, idx);
+      for(auto& e : ref.m) { vals.elements()[k] = DT(e.second); idx.elements()[k] = IT(e.first); ++k; }
+      return UF(Index(n), vals, idx);
     }
-    UnitFilter<DT, Index> f{Index(n)};
-    if(order == ORD_ASC) for(auto& e : ref.m) f.add(e.first, DT(e.second));
-    if(order == ORD_DESC) for(auto it = ref.m.rbegin(); it != ref.m.rend(); ++it) f.add(it->first, DT(it->second));
+    UF f{Index(n)};
     if(order == ORD_DUP)
     {
-      for(auto& e : ref.m) f.add(e.first, DT(-77));
-      for(auto it = ref.m.rbegin(); it != ref.m.rend(); ++it) f.add(it->first, DT(it->second));
+      for(auto& e : ref.m) f.add(IT(e.first), DT(-77));
+      for(auto it = ref.m.rbegin(); it != ref.m.rend(); ++it) f.add(IT(it->first), DT(it->second));
     }
+    else if(order == ORD_INCR)
+    {
+      // re-invocation on an existing object: the filter is used (which sorts its entry list) and extended afterwards
+      const size_t half = asc.size() / 2;
+      for(size_t k = asc.size(); k-- > half;) f.add(IT(asc[k]), DT(ref.m[asc[k]]));
+      DenseVector<DT, IT> scratch(Index(n), DT(1));
+      f.filter_rhs(scratch); f.filter_def(scratch);
+      for(size_t k = 0; k < half; ++k) f.add(IT(asc[k]), DT(ref.m[asc[k]]));
+    }
+    else
+      for(Index i : add_order(asc, order)) f.add(IT(i), DT(ref.m[i]));
     return f;
   }
 
-  template<typename DT>
+  /// derives the filter under test from the built one; 'keep' receives the source object (it must stay usable and unchanged)
+  template<typename F, typename MakeOther>
+  F derive_filter(F&& built, int fd, std::vector<std::shared_ptr<void>>& keep, MakeOther&& make_other, F** srcp = nullptr)
+  {
+    if(srcp) *srcp = nullptr;
+    switch(fd)
+    {
+    case FD_CLONE_DEEP: case FD_CLONE_SHALLOW:
+    {
+      auto src = std::make_shared<F>(std::move(built)); keep.push_back(src);
+      if(srcp && fd == FD_CLONE_DEEP) *srcp = src.get();
+      return src->clone(fd == FD_CLONE_DEEP ? CloneMode::Deep : CloneMode::Shallow);
+    }
+    case FD_MOVE_ASSIGN:
+    {
+      F t = make_other();
+      t = std::move(built);
+      return t;
+    }
+    case FD_CLONE_INTO:
+    {
+      auto src = std::make_shared<F>(std::move(built)); keep.push_back(src);
+      F t = make_other();
+      t.clone(*src, CloneMode::Deep);
+      if(srcp) *srcp = src.get();
+      return t;
+    }
+    default:
+      return std::move(built);
+    }
+  }
+
+  template<typename DT, typename IT = Index>
   void unit_vectors(verif::Ctx& c, const std::string& kname)
   {
+    typedef UnitFilter<DT, IT> UF;
+    typedef typename std::conditional<std::is_same<DT, double>::value, float, double>::type DT2;
     const int N = c.thorough ? 14 : 10;
-    for(int n = 0; n <= N; ++n) for(unsigned S = 0; S < (1u << n); ++S) for(int order = 0; order < NUM_ORD; ++order) for(int op = 0; op < 4; ++op)
+    for(int n = 0; n <= N; ++n) for(unsigned S = 0; S < (1u << n); ++S) for(int order = 0; order < NUM_ORD; ++order) for(int fd = 0; fd < NUM_FD; ++fd) for(int vm = 0; vm < 3; ++vm) for(int op = 0; op < 4; ++op)
     {
       if(order == ORD_ARRAY && S == 0) continue;     // the array constructor asserts size > 0 and needs non-empty arrays
       if(order == ORD_DEFAULT && S != 0) continue;
-      if(order == ORD_DUP && S == 0) continue;
+      if((order == ORD_DUP || order == ORD_SCRAMBLED || order == ORD_INCR) && S == 0) continue;
+      // derived filters and the special value modes are combined with the basic orders and n <= 6 (all index sets)
+      if((fd != FD_NONE || vm != 0) && (n > 6 || !(order == ORD_ASC || order == ORD_DESC))) continue;
+      if(fd != FD_NONE && vm != 0) continue;
+      if(fd == FD_CONVERT && n == 0) continue;
       if(!c.want()) continue;
-      c.desc([&]{ return kname + " n=" + std::to_string(n) + " constrained=" + set_name(S, n) + " built by: " + ord_name[order] + " op=" + fop_name[op]; });
-      RUnit ref;
-      UnitFilter<DT, Index> f = make_unit<DT>(n, S, order, ref);
-      const auto st0 = sv_state(f.get_filter_vector());
-      DenseVector<DT, Index> v{Index(n)};
+      c.desc([&]{ return kname + " n=" + std::to_string(n) + " constrained=" + set_name(S, n) + " built by: " + ord_name[order] + " filter=" + fd_name[fd]
+        + " values=" + (vm == 0 ? "coded" : vm == 1 ? "prescribed 0/1/-1, all-negative vector" : "extreme prescribed values") + " op=" + fop_name[op]; });
+      g_pvmode = vm; g_xneg = (vm == 1);
+      RUnit ref, rtwin, rother;
+      std::vector<std::shared_ptr<void>> keep;
+      UF f; UF* srcp = nullptr;
+      if(fd == FD_CONVERT)
+      {
+        // values are exactly representable in both types (mode 0)
+        auto src = std::make_shared<UnitFilter<DT2, IT>>(make_unit<DT2, IT>(n, S, order, ref)); keep.push_back(src);
+        f = make_unit<DT, IT>(n, ~S & ((1u << n) - 1u), ORD_ASC, rother, 2);
+        f.convert(*src);
+      }
+      else
+        f = derive_filter(make_unit<DT, IT>(n, S, order, ref), fd, keep, [&]{ return make_unit<DT, IT>(n, ~S & ((1u << n) - 1u), ORD_ASC, rother, 2); }, &srcp);
+      DenseVector<DT, IT> v{Index(n)};
       for(int i = 0; i < n; ++i) v.elements()[i] = DT(xval(Index(i)));
+      // NOTE: the filter operation is the FIRST access to the filter after its construction (no accessor sorted it before)
       check_vec(c, kname, f, v, op, [&](Ref& r) { ref.apply(r, op); }, no_cons);
-      c.check(sv_state(f.get_filter_vector()) == st0, kname + ": filter modified by application", "index/value arrays of the filter changed");
+      // the application did not change the filter: it equals an identically specified twin
+      UF twin = make_unit<DT, IT>(n, S, order == ORD_DEFAULT ? ORD_DEFAULT : ORD_ASC, rtwin);
+      c.check(sv_state(f.get_filter_vector()) == sv_state(twin.get_filter_vector()) || order == ORD_DEFAULT, kname + ": filter modified by application", "index/value arrays of the filter differ from those of an identically specified filter");
       c.check(order == ORD_DEFAULT || (f.size() == Index(n) && f.used_elements() == Index(ref.m.size())), kname + ": filter size/used_elements", "wrong size()/used_elements()");
-      if(S != 0) c.nontrivial(verif::Hash().str(kname).pod(n).pod(S).pod(order).pod(op).get());
+      // the source of a deep clone is still the filter it was: same state, same effect
+      if(srcp != nullptr)
+      {
+        DenseVector<DT, IT> w{Index(n)};
+        for(int i = 0; i < n; ++i) w.elements()[i] = DT(xval(Index(i), 1));
+        check_vec(c, kname + " [source of the derived filter]", *srcp, w, op, [&](Ref& r) { ref.apply(r, op); }, no_cons);
+        c.check(sv_state(srcp->get_filter_vector()) == sv_state(twin.get_filter_vector()), kname + ": source of the derived filter modified", "the filter a clone was taken from changed");
+      }
+      g_pvmode = 0; g_xneg = 0;
+      if(S != 0) c.nontrivial(verif::Hash().str(kname).pod(n).pod(S).pod(order).pod(fd).pod(vm).pod(op).get());
+      if(fd != FD_NONE) c.count("cases_on_derived_filters");
       c.outcome(std::string("unit vector ") + (S == 0 ? "no constraint" : S + 1 == (1u << n) ? "all constrained" : "proper subset"));
     }
   }
@@ -137,11 +231,11 @@ namespace
   enum { M_MAT = 0, M_OFFDIAG = 1, M_WEAK = 2 };
   const char* mop_name[3] = {"filter_mat", "filter_offdiag_row_mat", "filter_weak_matrix_rows"};
 
-  template<typename DT>
-  void unit_csr(verif::Ctx& c, const std::string& kname)
+  template<typename DT, typename IT = Index>
+  void unit_csr(verif::Ctx& c, const std::string& kname, int nmcap = 5)
   {
-    typedef SparseMatrixCSR<DT, Index> Mat;
-    const int NM = c.thorough ? 5 : 4;
+    typedef SparseMatrixCSR<DT, IT> Mat;
+    const int NM = std::min(nmcap, c.thorough ? 5 : 4);
     for(int n = 1; n <= NM; ++n) for(int m = 1; m <= NM; ++m)
     {
       // quick: all shapes up to 4x4; thorough adds 4x5 (2^20 patterns) for double
@@ -153,10 +247,24 @@ namespace
         // stored entries has a null column array which Container::clone cannot share (aborts in increase_memory): not generated
         if(mop == M_WEAK && pat == 0) continue;
         if(!c.want()) continue;
-        c.desc([&]{ return kname + " " + mop_name[mop] + " CSR " + std::to_string(n) + "x" + std::to_string(m) + " pattern(bit i*m+j)=" + std::to_string(pat) + " constrained rows=" + set_name(S, n); });
-        RUnit ref;
-        UnitFilter<DT, Index> f = make_unit<DT>(n, S, (pat + S) % 2 ? ORD_DESC : ORD_ASC, ref);
-        Mat a = make_csr<DT>(n, m, pat);
+        // derived / pre-used filters and the value modes rotate deterministically with the coordinates
+        const int fd = ((pat + 2 * S) % 5 == 0) ? FD_CLONE_DEEP : ((pat + 2 * S) % 5 == 1) ? FD_MOVE_ASSIGN : FD_NONE;
+        const bool preuse = ((pat / 2 + S) % 2) == 1;
+        const int vm = (mop == M_WEAK) ? int((pat + S) % 3) : 0;
+        c.desc([&]{ return kname + " " + mop_name[mop] + " CSR " + std::to_string(n) + "x" + std::to_string(m) + " pattern(bit i*m+j)=" + std::to_string(pat) + " constrained rows=" + set_name(S, n)
+          + " filter=" + fd_name[fd] + (preuse ? " (used on another matrix before)" : "") + " value-mode=" + std::to_string(vm); });
+        g_pvmode = vm;
+        RUnit ref, rother;
+        std::vector<std::shared_ptr<void>> keep;
+        UnitFilter<DT, IT> f = derive_filter(make_unit<DT, IT>(n, S, (pat + S) % 2 ? ORD_DESC : ORD_ASC, ref), fd, keep, [&]{ return make_unit<DT, IT>(n, ~S & ((1u << n) - 1u), ORD_ASC, rother, 2); });
+        g_pvmode = 0;
+        if(preuse)
+        {
+          // re-invocation: the same filter object already filtered a matrix with another pattern
+          Mat b = make_csr<DT, IT>(n, m, ~pat & ((1u << (n * m)) - 1u) ? (~pat & ((1u << (n * m)) - 1u)) : 1u, 3);
+          if(mop == M_MAT) f.filter_mat(b); else f.filter_offdiag_row_mat(b);
+        }
+        Mat a = make_csr<DT, IT>(n, m, pat);
         MatSnap<Mat> s0(a);
         const std::string key = kname + "." + mop_name[mop] + " CSR";
         bool missing_diag = false;
@@ -203,7 +311,7 @@ namespace
         {
           std::vector<std::vector<LD>> d; d.assign(size_t(n), std::vector<LD>(size_t(n), LD(0)));
           for(int i = 0; i < n; ++i) for(Index k = s1.rp[size_t(i)]; k < s1.rp[size_t(i) + 1]; ++k) d[size_t(i)][s1.ci[k]] = LD(s1.val[k]);
-          DenseVector<DT, Index> b{Index(n)};
+          DenseVector<DT, IT> b{Index(n)};
           for(int i = 0; i < n; ++i) b.elements()[i] = DT(xval(Index(i), 3));
           f.filter_rhs(b);
           std::vector<LD> rhs; rhs.resize(size_t(n)); std::vector<LD> u;
@@ -220,6 +328,8 @@ namespace
         if(missing_diag) c.count("rows_without_stored_diagonal (only the zero row is demanded)");
         c.count("matrix_filter_applications");
         if(S != 0 && pat != 0) c.nontrivial(verif::Hash().str(kname).pod(n).pod(m).pod(pat).pod(S).pod(mop).get());
+        if(fd != FD_NONE) c.count("cases_on_derived_filters");
+        if(preuse) c.count("cases_on_previously_used_filters");
         c.outcome(std::string("unit csr ") + mop_name[mop] + (missing_diag ? " missing diagonal" : ""));
       }
     }
@@ -236,7 +346,7 @@ int main(int argc, char** argv)
   verif::Spec spec; spec.property = "C06"; spec.harness = "c06_filter";
   spec.rule = "cases = (filter kind, vector length / matrix shape, constrained index set, construction order, prescribed values/normals/weights, operation). "
     "Non-trivial iff at least one entry is constrained (unit/slip), the weight vectors are non-empty (mean), resp. the matrix has stored entries; hashed by all enumeration coordinates.";
-  spec.bounds_quick = "UnitFilter<double|float>: n=0..10, all 2^n index sets, 5 construction orders, 4 ops x (once,twice); CSR: all patterns of all shapes <=4x4 (65536 patterns of 4x4) x all row sets x 3 matrix ops (+dense solve); "
+  spec.bounds_quick = "UnitFilter<double|float|double,u32>: n=0..10, all 2^n index sets, 7 construction orders (incl. scrambled and add-use-add), for n<=6 also derived filters (deep/shallow clone, move-assigned, clone-into, convert from the other data type, source re-checked) and value modes (prescribed 0/1/-1 with all-negative vectors, extreme magnitudes); the filter operation is the first access to the built filter, 4 ops x (once,twice); CSR: all patterns of all shapes <=4x4 (65536 patterns of 4x4) x all row sets x 3 matrix ops (+dense solve), filters rotating through as-built / deep clone / move-assigned and fresh / previously used on another matrix, weak rows with value modes, u32 index type up to 3x3; "
     "UnitFilterBlocked<2|3>: 0..4 blocks, all sets, NaN masks; BCSR<2,2|2,3|3,2> all block patterns <=3x3; SlipFilter<2|3>: 0..4 blocks, all sets, 6 normal lists; MeanFilter/MeanFilterBlocked/Global::MeanFilter: n=0..8, 4 weight pairs; "
     "NoneFilter; FilterChain, FilterSequence, TupleFilter, PowerFilter, Global::Filter over all index-set tuples for n<=4 (tuple/power components <=3); 7 entry-free matrix combinations in forked children";
   spec.bounds_thorough = "as quick with n<=14 (unit vectors), CSR 4x5 in addition (all 2^20 patterns, double), blocks 0..5, mean n<=12, combinators n<=5 (tuple/power components <=4)";
@@ -252,6 +362,9 @@ int main(int argc, char** argv)
     unit_vectors<float>(c, "UnitFilter<float>");
     unit_csr<double>(c, "UnitFilter<double>");
     unit_csr<float>(c, "UnitFilter<float>");
+    // index type u32: the other overload set of the Arch kernels
+    unit_vectors<double, unsigned int>(c, "UnitFilter<double,u32>");
+    unit_csr<double, unsigned int>(c, "UnitFilter<double,u32>", 3);
     more_sections(c);
   });
 }
